@@ -162,7 +162,13 @@ func (fs *ReaderFS) readErr(r io.Reader) error {
 	case err := <-errs:
 		return err
 	case <-done:
-		return nil
+		// every background writer has finished; one of them may have failed at the same moment
+		select {
+		case err := <-errs:
+			return err
+		default:
+			return nil
+		}
 	}
 }
 
